@@ -66,6 +66,8 @@ PROFILES = {
     'contention': {'vehicles': 4, 'stations': 1, 'bases': 1, 'max_plugs': 1, 'max_stalls': 1, 'valid_p': 0.85, 'p_full_step': 0.3},
     'requests': {'vehicles': 3, 'p_full_step': 0.8, 'valid_p': 0.9},
     'fleets': {'fleets': ['fa', 'fb'], 'valid_p': 0.6},
+    'rawops': {'p_raw': 1.0},
+    'rawmix': {'p_raw': 0.25, 'stations': 2, 'bases': 1},
 }
 
 def run(seed, n_cases, n_ops, profile_name='generic', use_cache=True, coq=True, log=print):
@@ -112,6 +114,8 @@ def run(seed, n_cases, n_ops, profile_name='generic', use_cache=True, coq=True, 
         if acc and rej:
             nontrivial.add(hashlib.sha1(body.encode()).hexdigest())
         for k, (prop, kind, detail) in vs:
+            if profile.get('p_raw') and prop not in ('C08', 'C16'):
+                continue      # raw add/remove ops are outside the step alphabet the history properties quantify over
             viol.append({'case': c, 'op': k, 'property': prop, 'kind': kind, 'detail': detail})
         if len(samples) < 3:
             samples.append({'case': c, 'seed': seed, 'delta_s': int(w.sim.sim_timestep_duration_seconds), 'vehicles': len(w.sim.vehicles),
